@@ -3,6 +3,7 @@ package work
 import (
 	"fmt"
 	"reflect"
+	"sync"
 
 	"github.com/philpearl/plenc/plenccodec"
 
@@ -170,6 +171,38 @@ func c09Case(c *core.Ctx, idx int) {
 		return
 	}
 	if !isRecursive(typ) {
+		if idx%3 == 1 {
+			// the first descriptions of a type may be asked for by several goroutines at once
+			const g = 4
+			var wg sync.WaitGroup
+			whys := make([]string, g)
+			start := make(chan struct{})
+			for w := 0; w < g; w++ {
+				wg.Add(1)
+				go func(w int) {
+					defer wg.Done()
+					<-start
+					for k := 0; k < 3 && whys[w] == ""; k++ {
+						var dw plenccodec.Descriptor
+						if pn := core.Guard(func() { dw = codec.Descriptor() }); pn != "" {
+							whys[w] = "panic: " + pn
+							return
+						}
+						whys[w] = checkPresenceFlags(&dw, typ, "$")
+					}
+				}(w)
+			}
+			close(start)
+			wg.Wait()
+			rec.Eval(3 * g)
+			for w, why := range whys {
+				if why != "" {
+					rec.Violation("presence-flag", fmt.Sprintf("Descriptor() called by %d goroutines at once, goroutine %d: explicit-presence flag wrong: %s\n  type %s", g, w, why, typeString(typ)), nil)
+					return
+				}
+			}
+			rec.Count("concurrent_first_descriptions", 1)
+		}
 		d := codec.Descriptor()
 		rec.Eval(1)
 		if why := checkPresenceFlags(&d, typ, "$"); why != "" {
